@@ -123,7 +123,7 @@ ImplProd(p, env) ==
          ELSE {"MOFParseError"}
     [] p.d = "syntax" ->
          IF p.k = "garbage" \/ p.v \in PragmaSyn THEN {"MOFParseError"}
-         ELSE AnyMof \cup (IF p.k = "include" THEN {"OSError"} ELSE {})
+         ELSE AnyMof
     [] p.d = "value" ->
          IF p.k = "namespace"
          THEN IF p.v \in NsNoMatch
